@@ -5,7 +5,7 @@
 R=${VERIF_REPO:?set VERIF_REPO to a scratch copy of the repository}
 [ "$R" = "/repo" ] && { echo "refusing to patch /repo itself"; exit 2; }
 cd "$(dirname "$0")/.." || exit 2
-names="$@"; [ -z "$names" ] && names=$(ls benign)
+names="$@"; [ -z "$names" ] && names=$(ls benign | grep -v not-preserving)
 for n in $names; do
   git -C $R checkout -q -- . ; git -C $R apply $PWD/benign/$n/patch.diff 2>/dev/null || { echo "SKIP $n (patch does not apply)"; continue; }
   bad=""
